@@ -926,6 +926,10 @@ def check_C03(tier: str, seed: int) -> int:
                              "cells_per_group": dict(per), "traces_validated_against_impl": len(cells)})
         for c in cells[:: max(1, len(cells) // 4)][:4]:
             out.add_sample({"cell": c}, limit=4)
+        # whole programs over integer / float32 / float16 / constant leaves: values and shapes against Ref.tla, dtype against
+        # the NumPy twin after every statement
+        stage_traces(out, profile="c03", n=500 if tier == "quick" else 20000, clauses=["val", "sh", "dtype", "const", "np_share"])
+        out.coverage["traces_validated_against_impl"] = len(cells) + sum(t["programs"] for t in out.coverage.get("trace_stages", []))
     except tlc.MachineryError as e:
         out.machinery(str(e)[:3000])
     cov = out.coverage
